@@ -891,9 +891,16 @@ func (fr *Frame) loopHeaderState(li *loopInfo, in *State) *State {
 	ms := fr.loopModSet(li)
 	// local cells that the loop body does not store to directly keep their contents
 	stored := map[*ssa.Alloc]bool{}
+	storedKeys := map[string]bool{} // scalar-replaced locals of an enclosing function, reached through a captured variable
 	var mark func(v ssa.Value)
 	mark = func(v ssa.Value) {
 		switch x := v.(type) {
+		case *ssa.FreeVar:
+			for f := fr; f != nil; f = f.parent {
+				if r, ok := f.freeLocal[x]; ok {
+					storedKeys[r.key] = true
+				}
+			}
 		case *ssa.Alloc:
 			stored[x] = true
 		case *ssa.FieldAddr:
@@ -923,7 +930,7 @@ func (fr *Frame) loopHeaderState(li *loopInfo, in *State) *State {
 	// scalar-replaced locals assigned in the loop get fresh values at the header
 	for f := fr; f != nil; f = f.parent {
 		for a, key := range f.localKey {
-			if !stored[a] {
+			if !stored[a] && !storedKeys[key] {
 				continue
 			}
 			keys, sorts := fr.localLeafKeys(localRef{key: key}, a.Type().(*types.Pointer).Elem())
